@@ -580,6 +580,13 @@ type Success struct {
 	S     string  `json:"s"`
 	L     []int64 `json:"l"`
 	Nonce string  `json:"nonce"`
+	// Its are two objects a loop can run over: {v: a}, {v: a+1} of the input's a.
+	Its []ItemOut `json:"its"`
+}
+
+// ItemOut is an element of Success.Its; it has the shape of a loop item.
+type ItemOut struct {
+	V int64 `json:"v"`
 }
 
 // ErrorOut is the error output.
@@ -619,6 +626,10 @@ var successSchema = schema.NewScopeSchema(
 		"s":     prop(schema.NewStringSchema(nil, nil, nil), true, nil),
 		"l":     prop(schema.NewListSchema(schema.NewIntSchema(nil, nil, nil), nil, nil), false, nil),
 		"nonce": prop(schema.NewStringSchema(nil, nil, nil), true, nil),
+		"its": prop(schema.NewListSchema(schema.NewRefSchema("Item", nil), nil, nil), true, nil),
+	}),
+	schema.NewStructMappedObjectSchema[ItemOut]("Item", map[string]*schema.PropertySchema{
+		"v": prop(schema.NewIntSchema(nil, nil, nil), true, nil),
 	}),
 )
 var errorSchema = schema.NewScopeSchema(
@@ -658,7 +669,7 @@ func Nonce(src string, in Input) string {
 
 // Compute is what a successful execution returns for an input (the reference model uses it too).
 func Compute(src string, in Input) Success {
-	out := Success{A: in.A*2 + 1, S: "<" + in.S + ">", Nonce: Nonce(src, in), L: []int64{}}
+	out := Success{A: in.A*2 + 1, S: "<" + in.S + ">", Nonce: Nonce(src, in), L: []int64{}, Its: []ItemOut{{V: in.A}, {V: in.A + 1}}}
 	if in.O != nil {
 		out.S += "+" + *in.O
 	}
